@@ -241,7 +241,8 @@ def roundtrip_failure(x, notes=None):
     ys, _ = index(yi.species_lca.tree)
     if path_mapping(xi.leaf_object_species, xo, xs) != path_mapping(yi.leaf_object_species, yo, ys):
         return "leaf assignment differs"
-    if list(xi.costs.items()) != list(yi.costs.items()):
+    # the same event costs: a mapping (its key order is not one of the fields of the property)
+    if dict(xi.costs) != dict(yi.costs) or any(type(xi.costs[e]) is not type(yi.costs[e]) for e in xi.costs):
         return f"costs {dict(xi.costs)} became {dict(yi.costs)}"
     if isinstance(x, SuperReconciliationInput):
         bad = same_syn(x.leaf_syntenies, y.leaf_syntenies, xo, yo, "leaf synteny")
@@ -279,7 +280,9 @@ def roundtrip_failure(x, notes=None):
                 notes.append("Output.from_dict rebuilds .input as a plain ReconciliationInput: "
                              "input.leaf_syntenies is absent from the second to_dict()")
             a["input"].pop("leaf_syntenies")
-    if json.dumps(a) != json.dumps(b):
+    # "verbatim": every key with the same value; JSON objects are unordered, so a different insertion order of the
+    # `costs` table is not a difference (order of lists - child order in the Newick text, syntenies - still is)
+    if json.dumps(a, sort_keys=True) != json.dumps(b, sort_keys=True):
         return "second to_dict() differs from the first: " + first_diff(a, b)
     return None
 
@@ -290,8 +293,8 @@ def is_binary(tree):
 
 def first_diff(a, b, where=""):
     if isinstance(a, dict) and isinstance(b, dict):
-        if list(a) != list(b):
-            return f"{where}: keys {list(a)} vs {list(b)}"
+        if sorted(a) != sorted(b):
+            return f"{where}: keys {sorted(a)} vs {sorted(b)}"
         for k in a:
             if a[k] != b[k] or json.dumps(a[k]) != json.dumps(b[k]):
                 return first_diff(a[k], b[k], where + "/" + str(k))
